@@ -1165,15 +1165,15 @@ impl FromIterator<char> for LeanString {
         let iter = iter.into_iter();
 
         let (lower_bound, _) = iter.size_hint();
-        let mut repr = match Repr::with_capacity(lower_bound) {
-            Ok(buf) => buf,
-            Err(_) => Repr::new(), // Ignore the error and hope that the lower_bound is incorrect.
-        };
+        // NOTE: accumulate into a `LeanString` (not a bare `Repr`, which has no `Drop`) so that
+        // the buffer is released if `iter` or `push` panics.
+        // Ignore the error and hope that the lower_bound is incorrect.
+        let mut buf = LeanString::try_with_capacity(lower_bound).unwrap_or_default();
 
         for ch in iter {
-            repr.push_str(ch.encode_utf8(&mut [0; 4])).unwrap_with_msg();
+            buf.push(ch);
         }
-        LeanString(repr)
+        buf
     }
 }
 
